@@ -9,7 +9,7 @@
    6 bitwise_or, 7 bitwise_and, 8 bitwise_xor).  [np_reduce] (Spec/NpReduce.v) is NumPy's
    ufunc.reduce on the dense meaning [den x]. *)
 From Coq Require Import ZArith List Bool Permutation Sorting.Sorted QArith Qcanon.
-From Verif Require Import Py PyReduce Shape COO COOP GCXS Convert NpReduce Reduce ReduceExt ReduceGcxs
+From Verif Require Import Py PyReduce S_reduce Shape COO COOP GCXS Convert NpReduce Reduce ReduceExt ReduceGcxs
   ReduceLemmas ReduceKernelP ReduceP ReduceGcxsP ReduceExtP ReduceIndptrP.
 Import ListNotations.
 Open Scope Z_scope.
@@ -202,6 +202,13 @@ Theorem mean_dtype_promotion :
   (forall k d, In k [0; 1; 2; 3; 4; 5; 6; 7; 8; 9; 10; 11; 12; 13] -> mean_dtypes k (Some d) = Ok (d, d)).
 Proof. exact mean_dtype_promotion_proof. Qed.
 Print Assumptions mean_dtype_promotion.
+
+(* the fill correction of sum / prod (fill * missing, fill ** missing and the result fill value) is computed
+   with the fill value cast to the accumulation dtype of the grouped reduction, not in the data dtype
+   (flag GENERATED from SparseArray.reduce; values for narrow integers: directed differential cases) *)
+Theorem fill_correction_in_accumulation_dtype : s_fix_fill_in_acc_dtype = 1.
+Proof. exact fill_correction_in_accumulation_dtype_proof. Qed.
+Print Assumptions fill_correction_in_accumulation_dtype.
 
 Theorem var_dtype_promotion :
   (forall k, In k int_or_bool_dtypes -> var_dtype k None = Ok (Some 11)) /\
